@@ -211,4 +211,167 @@ theorem slurp_keeps (opts q : JV) (s : String) (hs : slurpOf opts q = .str s) :
       ("val", toquery (wrapInput opts (wrapCatch opts (transformPipeLast (fun _ => queryIdent) (fuelOf q) q))))]) (by simp) ?_
     exact Sub.obj (k := "val") (by simp) (Sub.refl _)
 
+/-! ### a literal evaluates back to the value it was made from -/
+
+theorem toquery_op (y : JV) : (toquery y).get "op" = .null := by
+  cases y with
+  | bool b => cases b <;> simp [toquery, JV.get, getKV]
+  | arr xs => cases xs <;> simp [toquery, JV.get, getKV]
+  | obj kvs => cases kvs <;> simp [toquery, JV.get, getKV]
+  | num n => simp only [toquery]; split <;> simp [JV.get, getKV]
+  | _ => simp [toquery, JV.get, getKV]
+
+theorem beq_null_str (s : String) : ((JV.null : JV) == JV.str s) = false := by
+  show JV.beq .null (.str s) = false
+  simp [JV.beq]
+
+theorem flattenComma_toquery (f : Nat) (y : JV) : flattenComma f (toquery y) = [toquery y] := by
+  cases f with
+  | zero => rfl
+  | succ f => simp [flattenComma, toquery_op, beq_null_str]
+
+theorem beq_str_self (s : String) : ((JV.str s : JV) == JV.str s) = true := by
+  show JV.beq (.str s) (.str s) = true
+  simp [JV.beq]
+
+theorem flattenComma_commas (xs : List JV) : ∀ (acc : JV) (L : List JV) (n : Nat),
+    (∀ f, n ≤ f → flattenComma f acc = L) →
+    ∀ f, n + xs.length ≤ f → flattenComma f (toqueryCommas acc xs) = L ++ xs.map toquery := by
+  induction xs with
+  | nil => intro acc L n h f hf; simpa [toqueryCommas] using h f (by simpa using hf)
+  | cons y ys ih =>
+    intro acc L n h f hf
+    simp only [toqueryCommas, List.map, List.length] at hf ⊢
+    have := ih (queryComma acc (toquery y)) (L ++ [toquery y]) (n + 1) (by
+      intro f' hf'
+      cases f' with
+      | zero => omega
+      | succ f' =>
+        have hb : ((JV.str "," : JV) == JV.str ",") = true := beq_str_self ","
+        simp only [flattenComma, queryComma, JV.get, getKV]
+        simp [hb, h f' (by omega), flattenComma_toquery f' y]) f (by omega)
+    simpa using this
+
+
+theorem size_pos (x : JV) : 1 ≤ x.size := by
+  cases x <;> simp [JV.size] <;> omega
+
+theorem sizeL_ge_length (xs : List JV) : xs.length ≤ JV.sizeL xs := by
+  induction xs with
+  | nil => simp [JV.sizeL]
+  | cons x rest ih => simp only [JV.sizeL, List.length]; have := size_pos x; omega
+
+theorem toquery_truthy (x : JV) : (toquery x).truthy = true := by
+  cases x with
+  | bool b => cases b <;> simp [toquery, truthy]
+  | arr xs => cases xs <;> simp [toquery, truthy]
+  | obj kvs => cases kvs <;> simp [toquery, truthy]
+  | num n => simp only [toquery]; split <;> simp [truthy]
+  | _ => simp [toquery, truthy]
+
+theorem toqueryCommas_truthy (acc : JV) (xs : List JV) (h : acc.truthy = true) : (toqueryCommas acc xs).truthy = true := by
+  induction xs generalizing acc with
+  | nil => simpa [toqueryCommas] using h
+  | cons y ys ih => simp only [toqueryCommas]; exact ih _ (by simp [queryComma, truthy])
+
+theorem setKV_append (k : String) (v : JV) (acc : List (String × JV)) (h : ∀ p ∈ acc, p.1 < k) :
+    setKV k v acc = acc ++ [(k, v)] := by
+  induction acc with
+  | nil => rfl
+  | cons p rest ih =>
+    obtain ⟨l, w⟩ := p
+    have hl : l < k := h (l, w) (by simp)
+    have h1 : (l == k) = false := by
+      simp only [beq_eq_false_iff_ne, ne_eq]
+      intro he; subst he; exact String.lt_irrefl _ hl
+    have h2 : ¬ (k < l) := String.lt_asymm hl
+    simp only [setKV, h1, h2, if_false, List.cons_append, Bool.false_eq_true]
+    rw [ih (fun p hp => h p (by simp [hp]))]
+
+theorem litKey_toqueryKV (k : String) (v : JV) :
+    litKey (.obj [("key_string", strNode k), ("val", toquery v)]) = some k := by
+  unfold litKey strNode
+  by_cases hk : k = ""
+  · subst hk; simp [getIn, JV.get, getKV]
+  · have : (k == "") = false := by simpa using hk
+    simp [getIn, JV.get, getKV, this]
+
+mutual
+  theorem evalLit_toquery : ∀ (x : JV) (fuel : Nat), Canon x → x.size + 1 ≤ fuel → evalLit fuel (toquery x) = some x
+    | .null, fuel, _, hf => by
+      obtain ⟨f, rfl⟩ : ∃ f, fuel = f + 1 := ⟨fuel - 1, by simp [JV.size] at hf; omega⟩
+      simp [evalLit, toquery, litType, JV.get, getKV]
+    | .bool true, fuel, _, hf => by
+      obtain ⟨f, rfl⟩ : ∃ f, fuel = f + 1 := ⟨fuel - 1, by simp [JV.size] at hf; omega⟩
+      simp [evalLit, toquery, litType, JV.get, getKV]
+    | .bool false, fuel, _, hf => by
+      obtain ⟨f, rfl⟩ : ∃ f, fuel = f + 1 := ⟨fuel - 1, by simp [JV.size] at hf; omega⟩
+      simp [evalLit, toquery, litType, JV.get, getKV]
+    | .num n, _, hc, _ => by simp [Canon] at hc
+    | .str s, fuel, _, hf => by
+      obtain ⟨f, rfl⟩ : ∃ f, fuel = f + 1 := ⟨fuel - 1, by simp [JV.size] at hf; omega⟩
+      by_cases hs : s = ""
+      · subst hs; simp [evalLit, toquery, litType, strNode, getIn, JV.get, getKV]
+      · have : (s == "") = false := by simpa using hs
+        simp [evalLit, toquery, litType, strNode, getIn, JV.get, getKV, this]
+    | .arr [], fuel, _, hf => by
+      obtain ⟨f, rfl⟩ : ∃ f, fuel = f + 1 := ⟨fuel - 1, by simp [JV.size] at hf; omega⟩
+      simp [evalLit, toquery, litType, getIn, JV.get, getKV, truthy]
+    | .arr (x :: xs), fuel, hc, hf => by
+      obtain ⟨f, rfl⟩ : ∃ f, fuel = f + 1 := ⟨fuel - 1, by simp [JV.size] at hf; omega⟩
+      simp only [JV.size, JV.sizeL] at hf
+      have hlen : xs.length ≤ JV.sizeL xs := sizeL_ge_length xs
+      have hfl : flattenComma f (toqueryCommas (toquery x) xs) = toquery x :: xs.map toquery := by
+        have := flattenComma_commas xs (toquery x) [toquery x] 0 (fun f' _ => flattenComma_toquery f' x) f (by omega)
+        simpa using this
+      have hl := evalLit_list (x :: xs) f (by simpa [Canon] using hc) (by simp [JV.sizeL]; omega)
+      have htr : (toqueryCommas (toquery x) xs).truthy = true := toqueryCommas_truthy _ _ (toquery_truthy x)
+      have key : evalLit (f + 1) (toquery (.arr (x :: xs))) =
+          ((flattenComma f (toqueryCommas (toquery x) xs)).mapM (evalLit f)).map .arr := by
+        simp [evalLit, toquery, litType, getIn, JV.get, getKV, htr]
+      rw [key, hfl, show toquery x :: xs.map toquery = (x :: xs).map toquery from rfl, hl]
+      rfl
+    | .obj [], fuel, _, hf => by
+      obtain ⟨f, rfl⟩ : ∃ f, fuel = f + 1 := ⟨fuel - 1, by simp [JV.size] at hf; omega⟩
+      simp [evalLit, toquery, litType, getIn, JV.get, getKV]
+    | .obj (kv :: kvs), fuel, hc, hf => by
+      obtain ⟨f, rfl⟩ : ∃ f, fuel = f + 1 := ⟨fuel - 1, by simp [JV.size] at hf; omega⟩
+      simp only [JV.size] at hf
+      simp only [Canon] at hc
+      have := evalLit_kvs (kv :: kvs) f [] hc.1 (by omega) (by simpa using hc.2)
+      have key : evalLit (f + 1) (toquery (.obj (kv :: kvs))) =
+          (toqueryKV (kv :: kvs)).foldlM (litStep (evalLit f)) (.obj []) := by
+        simp [evalLit, toquery, litType, getIn, JV.get, getKV]
+      rw [key, this]
+      rfl
+  theorem evalLit_list : ∀ (xs : List JV) (fuel : Nat), CanonL xs → JV.sizeL xs + 1 ≤ fuel →
+      (xs.map toquery).mapM (evalLit fuel) = some xs
+    | [], _, _, _ => by simp
+    | x :: xs, fuel, hc, hf => by
+      simp only [CanonL] at hc
+      simp only [JV.sizeL] at hf
+      have h1 := evalLit_toquery x fuel hc.1 (by have := size_pos x; omega)
+      have h2 := evalLit_list xs fuel hc.2 (by have := size_pos x; omega)
+      simp [List.mapM_cons, h1, h2]
+  theorem evalLit_kvs : ∀ (kvs : List (String × JV)) (fuel : Nat) (acc : List (String × JV)), CanonKV kvs →
+      JV.sizeKV kvs + 1 ≤ fuel → (acc ++ kvs).Pairwise (fun a b => a.1 < b.1) →
+      (toqueryKV kvs).foldlM (litStep (evalLit fuel)) (.obj acc) = some (.obj (acc ++ kvs))
+    | [], _, acc, _, _, _ => by simp [toqueryKV]
+    | (k, v) :: rest, fuel, acc, hc, hf, hp => by
+      simp only [CanonKV] at hc
+      simp only [JV.sizeKV] at hf
+      have h1 := evalLit_toquery v fuel hc.1 (by omega)
+      have hlt : ∀ p ∈ acc, p.1 < k := by
+        intro p hp'
+        have := List.pairwise_append.mp hp
+        exact this.2.2 p hp' (k, v) (by simp)
+      have h2 := evalLit_kvs rest fuel (acc ++ [(k, v)]) hc.2 (by have := size_pos v; omega) (by simpa using hp)
+      simp only [toqueryKV, List.foldlM_cons]
+      have hstep : litStep (evalLit fuel) (.obj acc) (.obj [("key_string", strNode k), ("val", toquery v)]) =
+          some (.obj (acc ++ [(k, v)])) := by
+        simp [litStep, JV.get, getKV, h1, litKey_toqueryKV, JV.set, setKV_append k v acc hlt]
+      simp [hstep]
+      simpa using h2
+end
+
 end Proofs.C11
